@@ -19,3 +19,65 @@ if not getattr(loops.Iter, "_c04_pos", False):
 
     loops.Iter.bind = _bind
     loops.Iter._c04_pos = True
+
+
+# 2. NaN-aware element-wise array division (opt-in per contract key through NAN_DIV).
+#    R1 treats floats as exact reals without NaN, so `image_native / noise_map_native ** 2.0` followed by
+#    `np.isnan(weight)` (w_tilde_data_imaging_from: masked pixels carry image = noise = 0 and are skipped through
+#    0/0 = NaN) has no reading in the base engine: its `div@` obligation demands a non-zero divisor everywhere.
+#    For contracts listed in NAN_DIV the division `a / b` of two real arrays is read as IEEE does:
+#        b != 0            ->  out = a / b      (exact, R1)
+#        b == 0, a == 0    ->  out = NaN        (flag array; the real value of `out` there is left unconstrained)
+#        b == 0, a != 0    ->  +-inf            -- excluded by the proof obligation `nan-div:no-inf@line`
+#    and `np.isnan(x)` of an element read straight from such an array returns its flag (False for anything else, R1).
+import ast
+import z3
+from pyvc import calls, engine
+from pyvc.engine import Arr, Ref, I, B, arr_sort
+
+NAN_DIV = set()
+
+if not getattr(engine.Engine, "_c04_nan", False):
+    _orig_arr_binop = engine.Engine.arr_binop
+
+    def _arr_binop(self, op, a, b, st):
+        if (isinstance(op, ast.Div) and self.c.key in NAN_DIV and not self.spec_mode
+                and isinstance(a, (Ref, Arr)) and isinstance(b, (Ref, Arr))):
+            A, Bv = self.deref(a, st), self.deref(b, st)
+            if A.rank == Bv.rank and A.elem == "real" and Bv.elem == "real":
+                for s, t in zip(A.shape, Bv.shape):
+                    self.emit("shape-eq@%s" % self.cur_line, st, engine.toz(s) == engine.toz(t), "shape")
+                idx = [self.fresh("i", I) for _ in A.shape]
+                ea, eb = self.select(A, idx), self.select(Bv, idx)
+                rng = z3.And([z3.And(i >= 0, i < engine.toz(s)) for i, s in zip(idx, A.shape)])
+                self.emit("nan-div:no-inf@%s" % self.cur_line, st,
+                          z3.ForAll(idx, z3.Implies(z3.And(rng, eb == 0), ea == 0)), "div")
+                out = Arr(self.fresh("nandiv", arr_sort("real", A.rank)), A.shape, "real")
+                flag = Arr(self.fresh("isnan", arr_sort("bool", A.rank)), A.shape, "bool")
+                st.pc.append(z3.ForAll(idx, z3.And(self.select(flag, idx) == (eb == 0),
+                                                   z3.Implies(eb != 0, self.select(out, idx) == ea / eb)),
+                                       patterns=[self.select(out, idx), self.select(flag, idx)]))
+                if not hasattr(self, "_nanflags"):
+                    self._nanflags = {}
+                self._nanflags[out.data.get_id()] = flag
+                rid = next(self.ids)
+                st.heap[rid] = out
+                return Ref(rid)
+        return _orig_arr_binop(self, op, a, b, st)
+
+    def _isnan(E, node, st):
+        v = E.ev(node.args[0], st)
+        flags = getattr(E, "_nanflags", {})
+        if flags and engine.is_z3(v):
+            t, idx = v, []
+            while z3.is_select(t):
+                idx.insert(0, t.arg(1))
+                t = t.arg(0)
+            f = flags.get(t.get_id())
+            if f is not None and len(idx) == f.rank:
+                return E.select(f, idx)
+        return False            # R1: reals, no NaN
+
+    engine.Engine.arr_binop = _arr_binop
+    engine.Engine._c04_nan = True
+    calls.NP_EXT["np.isnan"] = _isnan
